@@ -1,5 +1,5 @@
 """Source translator (DESIGN 5.1b): regenerates Gallina definitions from the CURRENT text of netaddr/ip/__init__.py
-(and the three constants width/version/max_int of netaddr/strategy/ipv4.py, ipv6.py) on every run -> coq/Gen/pysrc_gen.v
+(and of the other source files listed in UNITS, see "Third round" below; and the three constants width/version/max_int of netaddr/strategy/ipv4.py, ipv6.py) on every run -> coq/Gen/pysrc_gen.v
 (methods) and coq/Gen/pysrc_span_gen.v, pysrc_partition_gen.v, pysrc_iprange_gen.v (module-level functions, one file per
 property so that a definition Coq rejects cannot take unrelated obligations down).  coq/Proofs/GenOk_Src_*.v prove every
 generated definition equal to the hand-written model function of coq/Model/*.v, so a source edit that changes a translated
@@ -43,6 +43,18 @@ Reading of the new constructs (all of it is trusted translator input, with the t
   second name); checked syntactically over the whole function.  From then on a read of a translated property of x whose
   translation relied on the class invariant is preceded by the test 0 <= prefixlen <= width -> else `Raise Unsupported`.
 * `2 ** e` with an exponent that depends on a parameter gets the guard `e < 0 -> Raise Unsupported` (Python would build a float).
+Third round (other source files, table UNITS; one generated file per unit):
+* netaddr/contrib/subnet_splitter.py -> coq/Gen/pysrc_splitter_gen.v.  The object state `self._subnets` (STATEVARS) is read and
+  written like a local: it is a leading parameter `self_subnets`, a method that assigns it (also through `self.m(..)` or a mutator
+  call on it) returns the new state -- alone if the method returns no value, else the pair (state, value).  A Python set is the
+  Coq list of its elements (SrcPrelude: no duplicates under the element equality, insertion order standing for the unspecified
+  iteration order): `s.remove(x)` = py_set_remove (KeyError), `set(l)` = py_set_of_list, `s.union(t)` = py_set_union, equality of
+  IPNetwork elements = net_key_eqb (key() = version, first, last).  `sorted(xs, key=lambda x: <int>, reverse=True)` =
+  py_sorted_desc (stable).  `not l` / `if l` on a list = py_nonempty.  `[y for x in xs for y in f(x)]` = py_flat_map_o.
+  `for x in <expression>` evaluates the list once; loops may be nested; `return e` inside a loop that is not itself nested makes
+  the loop's Fixpoint answer `inl e` (the function's result) | `inr <variables read afterwards>`.  Calls that are NOT translated
+  become prelude symbols that are the callee's hand model (EXTERN: cidr_merge -> py_cidr_merge; list(x.subnet(p, count=c)) ->
+  py_list_subnet, Model/SrcPreludeSplitter.v).  A parameter declared `optint` is None or an int (option Z) and may only be passed on.
 Conventions (DESIGN 3): Python ints are Z; a shift count that depends on a parameter gets CPython's `ValueError: negative shift
 count` guard, a count built from object state and literals only is taken as non-negative (class invariant 0 <= prefixlen <=
 width); method parameters are ints unless declared otherwise in WHITELIST; every parameter of a module-level function is declared in FUNCS.
@@ -57,7 +69,7 @@ STRATEGY = (("ipv4", "netaddr/strategy/ipv4.py"), ("ipv6", "netaddr/strategy/ipv
 
 # receiver class -> parameters standing for the object state (version, width, _value[, _prefixlen] / _start, _end values)
 STATE = {"BaseIP": ("ver", "w", "v"), "IPAddress": ("ver", "w", "v"), "IPNetwork": ("ver", "w", "v", "p"),
-         "IPRange": ("ver", "w", "s", "e"), None: ()}
+         "IPRange": ("ver", "w", "s", "e"), None: (), "SubnetSplitter": ()}
 FIELD = {"self._value": "v", "self._prefixlen": "p"}      # assignable state attributes -> their state parameter
 
 # ---- trusted translator input --------------------------------------------------------------------------------------
@@ -96,12 +108,30 @@ SKIP = {("IPRange", "sort_key"): "calls core.num_bits (int.bit_length): outside 
         ("IPNetwork", "__contains__ fallback"): "`return IPNetwork(other) in self` for a non-BaseIP operand (string parser): Raise Unsupported",
         ("IPRange", "__contains__ fallback"): "`return IPAddress(other) in self` for a non-BaseIP operand (string parser): Raise Unsupported"}
 
+# ---- third round: other source files.  One unit = (source file, output file, prefix of the generated names of its module-level
+# functions, extra `Require`d prelude modules, entries as in WHITELIST/FUNCS).  A unit may call translated definitions of
+# netaddr/ip/__init__.py through the names it imports from netaddr.ip.
+UNITS = [
+    ("netaddr/contrib/subnet_splitter.py", "pysrc_splitter_gen.v", "", " Model.SrcPreludeSplitter",
+     [("SubnetSplitter", "available_subnets", {}), ("SubnetSplitter", "remove_subnet", {"ip_network": "net"}),
+      ("SubnetSplitter", "extract_subnet", {"prefix": "int", "count": "optint"})]),
+]
+FILES = FILES + tuple(u[1] for u in UNITS)
+# classes whose object state is a set of attributes read and written like locals: (attribute, type) in parameter order.  A method
+# that assigns one of them (or calls a method that does) returns the new state: alone if it returns no value, else (state, value).
+STATEVARS = {"SubnetSplitter": (("_subnets", "set net"),)}
+# calls that are NOT translated: they become symbols of the prelude named in the unit (the hand model of the callee):
+# imported function -> (symbol, parameter types, result type); all of them can raise
+EXTERN = {"netaddr.ip.cidr_merge": ("py_cidr_merge", ("list net",), "list net")}
+
 EXN = ("AddrFormatError", "AddrConversionError", "ValueError", "TypeError", "IndexError", "KeyError", "StructError",
        "NotRegisteredError", "AttributeError", "OverflowError")
 RESERVED = set("ver w v p s e in let if then else match with end fun forall exists as return at do fix cofix for using "
                "where Type Prop Set Ok Raise Some None true false fst snd negb omap bind width max_int_w mk_addr mk_net "
                "SInt Z bool list option outcome net sarg nil cons nver nval nplen rev app map fuel xs nat unit tt O S "
                "py_pop operand OAddr ONet ORng OOther struct "
+               "py_nonempty py_sorted_desc py_set_remove py_set_of_list py_set_union py_flat_map_o net_key_eqb py_list_subnet "
+               "py_cidr_merge inl inr sum "
                # constructors / constants of the Coq prelude: a pattern variable of that name would be read as the constructor
                "left right inl inr pair tt I conj eq_refl xH xO xI Z0 Zpos Zneg Lt Gt Eq ex_intro exist inleft inright "
                "Build_net AddrFormatError AddrConversionError ValueError TypeError IndexError KeyError StructError "
@@ -112,11 +142,12 @@ ARITH = {ast.Add: "(%s + %s)", ast.Sub: "(%s - %s)", ast.Mult: "(%s * %s)", ast.
 CMP = {ast.Lt: "(%s <? %s)", ast.LtE: "(%s <=? %s)", ast.Gt: "(%s >? %s)", ast.GtE: "(%s >=? %s)", ast.Eq: "(%s =? %s)",
        ast.NotEq: "(negb (%s =? %s))"}
 COQTY = {"int": "Z", "bool": "bool", "tuple": "(list Z)", "obj": "(Z * Z)", "net": "net", "self": "Z", "sarg": "sarg",
-         "operand": "operand", "unit": "unit"}
+         "operand": "operand", "unit": "unit", "optint": "(option Z)"}
 # the kinds of an `operand` (SrcPrelude.operand), their fields and the class each one stands for
 OPERAND = (("OAddr", ("ver", "v")), ("ONet", ("ver", "v", "p")), ("ORng", ("ver", "s", "e")), ("OOther", ()))
 KINDCLASS = {"OAddr": "IPAddress", "ONet": "IPNetwork", "ORng": "IPRange"}
 MUTATORS = ("append", "pop")
+PURE_METHODS = ("subnet", "union")      # x.subnet(..) (IPNetwork: a generator over new objects), s.union(t) (a new set): x, s unchanged
 
 
 class Untranslatable(Exception):
@@ -127,12 +158,15 @@ class NoJoin(Exception):
     """an `if` that cannot be written as a join of its assigned locals: translated by duplicating the continuation"""
 
 
-def bad(node, why, fn=IPFILE):
-    raise Untranslatable("%s:%s: %s" % (fn, getattr(node, "lineno", "?"), why))
+CURFILE = [IPFILE]      # the source file being translated (innermost last): names the file in every Untranslatable message
 
 
-def mangle(recv, name):
-    return "src_%s_%s" % (recv, name.strip("_")) if recv else "src_%s" % name
+def bad(node, why, fn=None):
+    raise Untranslatable("%s:%s: %s" % (fn or CURFILE[-1], getattr(node, "lineno", "?"), why))
+
+
+def mangle(recv, name, prefix=""):
+    return "src_%s_%s" % (recv, name.strip("_")) if recv else "src_%s%s" % (prefix, name)
 
 
 def dotted(node):
@@ -177,8 +211,9 @@ def assigned_names(stmts):
                 found.append((n.lineno, n.col_offset, n.id))
             elif isinstance(n, ast.Attribute) and isinstance(n.ctx, ast.Store) and isinstance(n.value, ast.Name):
                 found.append((n.lineno, n.col_offset, n.value.id))             # x._prefixlen = e rebinds the local object x
-            elif isinstance(n, ast.Call) and isinstance(n.func, ast.Attribute) and isinstance(n.func.value, ast.Name):
-                found.append((n.lineno, n.col_offset, n.func.value.id))        # any method call on a name may mutate it
+            elif (isinstance(n, ast.Call) and isinstance(n.func, ast.Attribute) and isinstance(n.func.value, ast.Name)
+                  and n.func.attr not in PURE_METHODS):
+                found.append((n.lineno, n.col_offset, n.func.value.id))        # any other method call on a name may mutate it
             elif isinstance(n, ast.Call) and dotted(n.func) == "_iter_next" and n.args and isinstance(n.args[0], ast.Name):
                 found.append((n.lineno, n.col_offset, n.args[0].id))
     return in_order(found)
@@ -208,19 +243,23 @@ def is_list(t):
     return isinstance(t, tuple) and t[0] == "list"
 
 
+def is_set(t):
+    return isinstance(t, tuple) and t[0] == "set"
+
+
 def is_value(t):
     """types whose terms are first-class Coq values that a loop or a join can carry"""
-    return t in ("int", "bool", "net") or (isinstance(t, tuple) and t[0] in ("list", "tup"))
+    return t in ("int", "bool", "net", "optint") or (isinstance(t, tuple) and t[0] in ("list", "tup", "set"))
 
 
 def parse_type(s):
-    return ("list", Cell(s[5:])) if s.startswith("list ") else s
+    return ("list", Cell(s[5:])) if s.startswith("list ") else ("set", Cell(s[4:])) if s.startswith("set ") else s
 
 
 def show(t):
     if isinstance(t, str):
         return t
-    if t[0] in ("list", "iter"):
+    if t[0] in ("list", "iter", "set"):
         return "%s of %s" % (t[0], show(t[1].find().t or "?"))
     if t[0] == "tup":
         return "tuple (%s)" % ", ".join(show(x) for x in t[1])
@@ -230,7 +269,7 @@ def show(t):
 def coqty(t, node=None):
     if isinstance(t, str):
         return COQTY[t]
-    if t[0] in ("list", "iter"):
+    if t[0] in ("list", "iter", "set"):      # a set is the list of its elements in an unspecified order, without duplicates
         e = t[1].find().t
         if e is None:
             bad(node, "list whose element type is never determined")
@@ -244,7 +283,7 @@ def unify(node, a, b, what):
     if isinstance(a, str) or isinstance(b, str) or a[0] != b[0]:
         if a != b:
             bad(node, "%s: %s where %s is expected" % (what, show(a), show(b)))
-    elif a[0] in ("list", "iter"):
+    elif a[0] in ("list", "iter", "set"):
         ca, cb = a[1].find(), b[1].find()
         if ca is cb:
             return
@@ -356,13 +395,15 @@ class Module:
 class Loop:
     """One translated loop: a Fixpoint emitted before the definition of its function."""
 
-    def __init__(self, name, node, iswhile, params, rty, ir, outcome, elem=None, target=None):
+    def __init__(self, name, node, iswhile, params, rty, ir, outcome, elem=None, target=None, lret=False):
         self.name, self.node, self.iswhile, self.params, self.rty, self.ir, self.outcome = name, node, iswhile, params, rty, ir, outcome
-        self.elem, self.target = elem, target
+        self.elem, self.target, self.lret = elem, target, lret
 
     def text(self, fn):
         ps = lambda xs: "".join(" (%s : %s)" % (cn, unparen(coqty(ty, self.node))) for cn, ty in xs)
         rt = coqty(self.rty, self.node)
+        if self.lret:           # a loop with `return` in its body: inl <the function's result> | inr <the variables read afterwards>
+            rt = "(%s + %s)" % (coqty(fn.retkind, self.node), rt)
         rt = "outcome " + rt if self.outcome else unparen(rt)
         where = "%s: %s, loop %s (`%s`), lines %d-%d" % (fn.mod.fn, fn.what(), self.name.rsplit("loop", 1)[1],
                                                          "while" if self.iswhile else "for", self.node.lineno, self.node.end_lineno)
@@ -382,7 +423,8 @@ class Fn:
 
     def __init__(self, tr, recv, name, ptypes):
         self.tr, self.recv, self.name, self.mod = tr, recv, name, tr.mod
-        self.file = FILE_OF.get(name, FILES[0]) if recv is None else FILES[0]
+        self.file = tr.out or (FILE_OF.get(name, FILES[0]) if recv is None else FILES[0])
+        self.cname = tr.mangle(recv, name)
         if recv is None:
             self.owner, self.f, self.is_prop = None, self.mod.function(name), False
         else:
@@ -390,6 +432,9 @@ class Fn:
             if r is None:
                 bad(None, "%s.%s not found" % (recv, name))
             self.owner, self.f, self.is_prop = r
+        self.statevars, self.mutating, self.valued = [], False, True
+        if recv in STATEVARS:
+            self.f = self.state_as_locals(self.f)
         a = self.f.args
         if a.vararg or a.kwarg or a.kwonlyargs or a.posonlyargs or (recv is not None and (not a.args or a.args[0].arg != "self")):
             bad(self.f, "unsupported signature")
@@ -411,13 +456,18 @@ class Fn:
         if recv == "IPNetwork":
             self.attrs["self._prefixlen"] = ("int", "p")
         self.used, self.pre, self.nohoist, self.nfresh, self.size = {}, [], 0, 0, 0
-        self.deps, self.loops, self.loopmemo = set(), [], {}
+        self.deps, self.depfns, self.loops, self.loopmemo, self.lrets = set(), [], [], {}, []
         self.assumes_inv = False        # some shift count built from object state only was taken as non-negative (class invariant)
         self.freshbind = set()          # assignments `x = <constructor result>`: x holds an object nobody else can see
         loops = sorted((n for n in ast.walk(self.f) if isinstance(n, (ast.For, ast.While))), key=lambda n: (n.lineno, n.col_offset))
         self.loopno = {id(n): i + 1 for i, n in enumerate(loops)}
-        env = {"@taint": frozenset(), "@mut": None, "@break": None, "@continue": None, "@raw": frozenset()}
+        env = {"@taint": frozenset(), "@mut": None, "@break": None, "@continue": None, "@raw": frozenset(), "@lret": False}
         self.params = []
+        for attr, ty in STATEVARS.get(recv, ()):         # the object's state, passed like a leading parameter
+            ty = parse_type(ty)
+            cn = self.coqname(self.f, "self" + attr)
+            env["self" + attr] = (ty, cn)
+            self.statevars.append((cn, ty))
         for x in a.args[(0 if recv is None else 1):]:
             if recv is None and x.arg not in ptypes:
                 bad(x, "parameter %s of %s has no declared type in FUNCS" % (x.arg, name))
@@ -431,6 +481,78 @@ class Fn:
             body = body[1:]
         self.ir = self.block(body, env, lambda e: self.leaf(e, "none", None), [])
         self.finish()
+
+    # ---- object state read and written like locals (STATEVARS)
+    def method_mutates(self, name, seen=()):
+        """does method `name` of the receiver class assign a state attribute: directly, by a method call on it other than the
+        pure ones, or through another method of self?"""
+        r = self.mod.lookup(self.recv, name)
+        if r is None:
+            return False
+        paths = {"self." + a for a, _ in STATEVARS[self.recv]}
+        for n in ast.walk(r[1]):
+            if isinstance(n, ast.Attribute) and dotted(n) in paths and not isinstance(n.ctx, ast.Load):
+                return True
+            if isinstance(n, ast.Call) and isinstance(n.func, ast.Attribute):
+                if dotted(n.func.value) in paths and n.func.attr not in ("union", "copy"):
+                    return True
+                if (dotted(n.func) == "self." + n.func.attr and n.func.attr not in seen + (name,)
+                        and self.method_mutates(n.func.attr, seen + (name,))):
+                    return True
+        return False
+
+    def state_as_locals(self, f):
+        """a copy of method f in which the state attributes are local names: `self._a` -> name `self_a` (a leading parameter);
+        `self.m(x)` -> `self.m(<state names>, x)`; statement `self.m(x)` of a mutating m -> `<state names> = self.m(..)`;
+        in a mutating method `return e` -> `return (<state names>, e)`, `return` / end of body -> `return <state names>`."""
+        import copy
+        f, fn = copy.deepcopy(f), self
+        names = ["self" + a for a, _ in STATEVARS[self.recv]]
+        paths = {"self." + a: "self" + a for a, _ in STATEVARS[self.recv]}
+        self.mutating = self.method_mutates(self.name)
+        isnone = lambda v: v is None or (isinstance(v, ast.Constant) and v.value is None)
+        rets = [n for n in ast.walk(f) if isinstance(n, ast.Return)]
+        self.valued = any(not isnone(n.value) for n in rets)
+        if self.mutating and self.valued and any(isnone(n.value) for n in rets):
+            bad(f, "method that assigns the object state returns a value on some paths only")
+
+        def state(ctx, at):
+            xs = [ast.copy_location(ast.Name(id=x, ctx=ctx()), at) for x in names]
+            return xs[0] if len(xs) == 1 else ast.copy_location(ast.Tuple(elts=xs, ctx=ctx()), at)
+
+        class T(ast.NodeTransformer):
+            def visit_Attribute(self, n):
+                if dotted(n) in paths:
+                    return ast.copy_location(ast.Name(id=paths[dotted(n)], ctx=n.ctx), n)
+                return self.generic_visit(n)
+
+            def visit_Call(self, n):
+                own = isinstance(n.func, ast.Attribute) and dotted(n.func) == "self." + n.func.attr
+                n = self.generic_visit(n)
+                if own:
+                    n.args = [ast.copy_location(ast.Name(id=x, ctx=ast.Load()), n) for x in names] + n.args
+                return n
+
+            def visit_Expr(self, st):
+                v = st.value
+                if (isinstance(v, ast.Call) and isinstance(v.func, ast.Attribute) and dotted(v.func) == "self." + v.func.attr
+                        and fn.method_mutates(v.func.attr)):
+                    v = self.visit(v)
+                    v.state_call = True
+                    return ast.copy_location(ast.Assign(targets=[state(ast.Store, st)], value=v), st)
+                return self.generic_visit(st)
+
+            def visit_Return(self, st):
+                st = self.generic_visit(st)
+                if fn.mutating:
+                    st.value = (ast.copy_location(ast.Tuple(elts=[state(ast.Load, st), st.value], ctx=ast.Load()), st) if fn.valued
+                                else state(ast.Load, st))
+                return st
+        f = T().visit(f)
+        if self.mutating and not self.valued and not isinstance(f.body[-1], (ast.Return, ast.Raise)):
+            f.body.append(ast.copy_location(ast.Return(value=state(ast.Load, f.body[-1])), f.body[-1]))
+            f.body[-1].lineno = f.body[-1].end_lineno = f.end_lineno
+        return ast.fix_missing_locations(f)
 
     # ---- names
     def coqname(self, node, name):
@@ -467,6 +589,8 @@ class Fn:
 
     def state(self, env):
         """the receiver's state parameters as they are now (after `self._value = e` the new value is passed on)"""
+        if self.recv in STATEVARS:
+            return " ".join(env["self" + attr][1] for attr, _ in STATEVARS[self.recv])
         inv = {v: k for k, v in FIELD.items()}
         return " ".join(env[inv[x]][1] if inv.get(x) in env else x for x in STATE[self.recv])
 
@@ -484,16 +608,19 @@ class Fn:
         """use of translated definition (recv, name) on receiver state `state` with arguments [(type, term)]"""
         d = self.tr.get(recv, name, node)
         if FILES.index(d.file) > FILES.index(self.file):
-            bad(node, "%s lives in %s, which comes after %s" % (mangle(recv, name), d.file, self.file))
+            bad(node, "%s lives in %s, which comes after %s" % (d.cname, d.file, self.file))
         self.deps.add((recv, name))
+        self.depfns.append(d)
         self.assumes_inv |= d.assumes_inv
         if len(args) != len(d.params):
-            bad(node, "unsupported argument list for %s" % mangle(recv, name))
+            bad(node, "unsupported argument list for %s" % d.cname)
         for (ty, _), (_, pty) in zip(args, d.params):
-            unify(node, ty, pty, "argument of %s" % mangle(recv, name))
-        term = "(%s)" % " ".join([mangle(recv, name)] + ([state] if state else []) + [t for _, t in args])
+            unify(node, ty, pty, "argument of %s" % d.cname)
+        term = "(%s)" % " ".join([d.cname] + ([state] if state else []) + [t for _, t in args])
         if d.optional:
-            bad(node, "use of %s, which may return None" % mangle(recv, name))
+            bad(node, "use of %s, which may return None" % d.cname)
+        if d.mutating and not getattr(node, "state_call", False):
+            bad(node, "call of %s, which assigns the object state, inside an expression" % d.cname)
         return ("out", d.kind, term) if d.outcome else (d.kind, term)
 
     def ctor(self, node, cls, env):
@@ -537,7 +664,7 @@ class Fn:
             return ("int", {"version": ver, "width": "(width %s)" % ver, "max_int": "(max_int_w (width %s))" % ver}[tail[8:]])
         if tail in fields:
             return ("int", fields[tail])
-        r = self.mod.lookup(cls, tail) if "." not in tail else None
+        r = self.tr.modof(cls).lookup(cls, tail) if "." not in tail else None
         if r and r[2]:
             if head in env["@raw"] and self.tr.get(cls, tail, node).assumes_inv:
                 # the object's _prefixlen was assigned directly (no setter): the invariant the callee's translation relies on
@@ -571,6 +698,8 @@ class Fn:
 
     def bool_(self, node, env):
         ty, t = self.ex(node, env)
+        if is_list(ty):
+            return "(py_nonempty %s)" % t               # truth value of a list
         if ty != "bool":
             bad(node, "bool expression expected, got %s" % show(ty))
         return t
@@ -683,7 +812,80 @@ class Fn:
             return self.subscript(node, env)
         if isinstance(node, ast.Call):
             return self.call(node, env)
+        if isinstance(node, ast.ListComp):
+            return self.listcomp(node, env)
         bad(node, "expression %s" % type(node).__name__)
+
+    def elem_eqb(self, node, ty):
+        """the equality (hence hashing) of the elements of a set: IPNetwork.__eq__ compares key() = (version, first, last)"""
+        e = ty[1].find().t
+        if e == "net":
+            return "net_key_eqb"
+        if e == "int":
+            return "Z.eqb"
+        bad(node, "set of %s" % show(e or "?"))
+
+    def listcomp(self, node, env):
+        """[y for x in xs for y in f(x)] -> py_flat_map_o (fun x => f x) xs (the lists f(x) one after the other; the first
+        exception wins)"""
+        g = node.generators
+        if not (len(g) == 2 and all(not x.ifs and not x.is_async and isinstance(x.target, ast.Name) for x in g)
+                and isinstance(node.elt, ast.Name) and node.elt.id == g[1].target.id and g[0].target.id != g[1].target.id
+                and g[0].target.id not in env and g[1].target.id not in env):
+            bad(node, "list comprehension other than [y for x in xs for y in f(x)] with fresh x, y")
+        ty, t = self.ex(g[0].iter, env)
+        elem = ty[1].find().t if is_list(ty) else None
+        if elem is None:
+            bad(node, "comprehension over %s" % show(ty))
+        cn, lenv = self.bind_local(g[0].target, g[0].target.id, elem, env, g[0].iter)
+        saved, self.pre = self.pre, []
+        r = self.rhs(g[1].iter, lenv)
+        inner, self.pre = self.pre, saved
+        if inner:
+            bad(node, "comprehension whose inner iterable is more than one call")
+        rty = r[1] if r[0] == "out" else r[0]
+        if not is_list(rty):
+            bad(node, "comprehension whose inner iterable is %s" % show(rty))
+        return ("out", ("list", rty[1]), "(py_flat_map_o (fun %s => %s) %s)" % (cn, r[2] if r[0] == "out" else "(Ok %s)" % r[1], t))
+
+    def sorted_(self, node, env):
+        """sorted(xs, key=lambda x: <int>, reverse=True) -> py_sorted_desc: stable, descending by key; for a set `xs` the order
+        among equal keys is the (unspecified) iteration order = the order of the representing list"""
+        kw = {k.arg: k.value for k in node.keywords}
+        lam = kw.get("key")
+        if not (len(node.args) == 1 and set(kw) == {"key", "reverse"} and len(kw) == len(node.keywords)
+                and isinstance(kw["reverse"], ast.Constant) and kw["reverse"].value is True and isinstance(lam, ast.Lambda)
+                and len(lam.args.args) == 1 and not (lam.args.defaults or lam.args.vararg or lam.args.kwarg or lam.args.kwonlyargs
+                                                     or lam.args.posonlyargs) and lam.args.args[0].arg not in env):
+            bad(node, "sorted() other than sorted(xs, key=lambda x: <int>, reverse=True)")
+        ty, t = self.ex(node.args[0], env)
+        elem = ty[1].find().t if (is_list(ty) or is_set(ty)) else None
+        if elem is None:
+            bad(node, "sorted() of %s" % show(ty))
+        cn, lenv = self.bind_local(lam, lam.args.args[0].arg, elem, env, node.args[0])
+        self.nohoist += 1
+        key = self.int_(lam.body, lenv)
+        self.nohoist -= 1
+        return (("list", ty[1]), "(py_sorted_desc (fun %s => %s) %s)" % (cn, key, t))
+
+    def subnet_list(self, node, env):
+        """list(x.subnet(prefixlen[, count=c])) for an IPNetwork-valued x: IPNetwork.subnet is a generator and is not translated;
+        the call becomes the prelude symbol py_list_subnet (the hand model of the generator, run to exhaustion)"""
+        c = node.args[0]
+        ty, t = self.ex(c.func.value, env)
+        r = self.tr.modof("IPNetwork").lookup("IPNetwork", "subnet")
+        if ty != "net" or not r or r[2] or [a.arg for a in r[1].args.args] != ["self", "prefixlen", "count", "fmt"] or [
+                (d.value if isinstance(d, ast.Constant) else d) for d in r[1].args.defaults] != [None, None]:
+            bad(node, "list(x.subnet(..)) on something other than an IPNetwork with subnet(self, prefixlen, count=None, fmt=None)")
+        kw = {k.arg: k.value for k in c.keywords}
+        if len(c.args) != 1 or not set(kw) <= {"count"} or len(kw) != len(c.keywords):
+            bad(node, "x.subnet() with an argument list other than (prefixlen[, count=c])")
+        prefix = self.int_(c.args[0], env)
+        cty, ct = self.ex(kw["count"], env) if "count" in kw else ("none", None)
+        if cty not in ("none", "int", "optint"):
+            bad(node, "count=%s" % show(cty))
+        count = "None" if cty == "none" else "(Some %s)" % ct if cty == "int" else ct
+        return ("out", ("list", Cell("net")), "(py_list_subnet %s %s %s)" % (t, prefix, count))
 
     def subscript(self, node, env):
         ty, t = self.ex(node.value, env)
@@ -722,13 +924,41 @@ class Fn:
             if f.id == "bool" and ty in ("int", "bool"):
                 return ("bool", "(negb (%s =? 0))" % t if ty == "int" else t)
             bad(node, "%s() of %s" % (f.id, show(ty)))
-        if isinstance(f, ast.Name) and f.id not in env and any(k[1] == f.id for k in FUNCS):
+        if isinstance(f, ast.Name) and f.id not in env and not self.mod.toplevel(f.id) and f.id in ("sorted", "set", "list"):
+            if f.id == "sorted":
+                return self.sorted_(node, env)
+            if (f.id == "list" and len(node.args) == 1 and not node.keywords and isinstance(node.args[0], ast.Call)
+                    and isinstance(node.args[0].func, ast.Attribute) and node.args[0].func.attr == "subnet"):
+                return self.subnet_list(node, env)
+            if f.id == "set" and len(node.args) == 1 and not node.keywords:
+                ty, t = self.ex(node.args[0], env)
+                if is_list(ty):
+                    return (("set", ty[1]), "(py_set_of_list %s %s)" % (self.elem_eqb(node, ty), t))
+            bad(node, "%s() with an unsupported argument" % f.id)
+        if isinstance(f, ast.Name) and f.id not in env and self.mod.imports.get(f.id) in EXTERN:
+            sym, ptys, rty = EXTERN[self.mod.imports[f.id]]      # an untranslated callee: its hand model, as a prelude symbol
+            args = [self.ex(x, env) for x in node.args]
+            if node.keywords or len(args) != len(ptys):
+                bad(node, "unsupported argument list for %s" % f.id)
+            for (ty, _), pty in zip(args, ptys):
+                unify(node, ty, parse_type(pty), "argument of %s" % f.id)
+            return ("out", parse_type(rty), "(%s)" % " ".join([sym] + [t for _, t in args]))
+        if isinstance(f, ast.Name) and f.id not in env and self.tr.owner_of(f.id) is not None:
             return self.callfn(node, f.id, env)
         if self.recv and isinstance(f, ast.Attribute) and dotted(f) == "self." + f.attr and f.attr != "__class__":
             r = self.mod.lookup(self.recv, f.attr)
             if not r or r[2] or node.keywords:
                 bad(node, "call of self.%s" % f.attr)
+            if self.recv in STATEVARS:                     # state_as_locals put the state names in front of the arguments
+                k = len(STATEVARS[self.recv])
+                return self.generated(node, self.recv, f.attr, " ".join(self.ex(x, env)[1] for x in node.args[:k]),
+                                      [self.ex(x, env) for x in node.args[k:]])
             return self.generated(node, self.recv, f.attr, self.state(env), [("int", self.int_(x, env)) for x in node.args])
+        if (isinstance(f, ast.Attribute) and f.attr == "union" and len(node.args) == 1 and not node.keywords
+                and isinstance(f.value, ast.Name) and is_set(env.get(f.value.id, ("",))[0])):
+            (ta, a), (tb, b) = env[f.value.id], self.ex(node.args[0], env)      # s.union(t): a new set, s first
+            unify(node, tb, ta, "argument of union")
+            return (("set", ta[1]), "(py_set_union %s %s %s)" % (self.elem_eqb(node, ta), a, b))
         ty, cls = self.ex(f, env) if not isinstance(f, ast.Call) else (None, None)
         if ty != "cls":
             bad(node, "call of %s" % (dotted(f) or "a computed function"))
@@ -738,6 +968,11 @@ class Fn:
     def leaf(self, env, kind, term, wrapped=False):
         if kind == "none" and env["@mut"]:
             kind, term = "self", env["@mut"][1]
+        if env["@break"] is not None:                   # `return` inside a loop: the loop's Fixpoint answers inl <value>
+            if kind in ("none", "self"):
+                bad(None, "return without a value inside a loop")
+            self.lrets.append(kind)
+            return ("lret", kind, term, wrapped)
         return ("ret", kind, term, wrapped)
 
     def block(self, stmts, env, k, after):
@@ -776,8 +1011,8 @@ class Fn:
         bad(s, "statement %s" % type(s).__name__)
 
     def return_(self, s, env):
-        if env["@break"] is not None:
-            bad(s, "return inside a loop")
+        if env["@break"] is not None and not env["@lret"]:
+            bad(s, "return inside a nested loop")
         v = s.value
         if v is None:
             return self.leaf(env, "none", None)
@@ -909,7 +1144,7 @@ class Fn:
             x = tgt.id
             ty = r[1] if r[0] == "out" else r[0]
             if r[0] == "out" and r[1] == "net" and isinstance(s, ast.Assign) and (
-                    r[2].startswith("(mk_net ") or any(self.tr.done[k].fresh and r[2].startswith("(%s " % mangle(*k)) for k in self.deps)):
+                    r[2].startswith("(mk_net ") or any(d.fresh and r[2].startswith("(%s " % d.cname) for d in self.depfns)):
                 self.freshbind.add(id(s))
             if is_list(ty) and isinstance(value, ast.Name):
                 bad(s, "a second name for a list (aliasing)")
@@ -953,7 +1188,16 @@ class Fn:
             if self.tainted(v.args[0], env):
                 env["@taint"] = env["@taint"] | {l}
             return self.wrap(pre, ("let", cn, "(%s ++ [%s])" % (lt, t), go(env)))
-        bad(s, "expression statement other than l.append(e)")
+        if (isinstance(v, ast.Call) and isinstance(v.func, ast.Attribute) and v.func.attr == "remove" and isinstance(v.func.value, ast.Name)
+                and is_set(env.get(v.func.value.id, ("",))[0]) and len(v.args) == 1 and not v.keywords):
+            l = v.func.value.id                                          # s.remove(e): KeyError if absent
+            lty, lt = env[l]
+            ty, t = self.ex(v.args[0], env)
+            unify(s, ("set", Cell(ty)), lty, "removed element")
+            pre = self.take_pre()
+            cn, env = self.bind_local(s, l, lty, env)
+            return self.wrap(pre, ("bind", cn, "(py_set_remove %s %s %s)" % (self.elem_eqb(s, lty), lt, t), go(env)))
+        bad(s, "expression statement other than l.append(e) / s.remove(e)")
 
     def if_(self, s, rest, env, k, after):
         t, neg = s.test, False
@@ -1065,16 +1309,28 @@ class Fn:
     def loop(self, s, rest, env, k, after):
         """while / for -> a Fixpoint (class Loop) and its call; see the module docstring"""
         iswhile = isinstance(s, ast.While)
-        if s.orelse or env["@break"] is not None or env["@mut"]:
-            bad(s, "loop with else / nested loop / loop after a state assignment")
-        name = "%s_loop%d" % (mangle(self.recv, self.name), self.loopno[id(s)])
+        if s.orelse or env["@mut"]:
+            bad(s, "loop with else / loop after a state assignment")
+        nested = env["@break"] is not None
+        has_ret = any(isinstance(n, ast.Return) for st in s.body for n in ast.walk(st))
+        if nested and has_ret:
+            bad(s, "return inside a nested loop")
+        name = "%s_loop%d" % (self.cname, self.loopno[id(s)])
         assigned, loads = assigned_names(s.body), loaded_names(([s.test] if iswhile else []) + s.body)
-        it = target = elem = None
+        it = target = elem = itterm = None
+        iterpre = []
         if not iswhile:
-            if not (isinstance(s.target, ast.Name) and isinstance(s.iter, ast.Name) and s.iter.id in env
-                    and isinstance(env[s.iter.id][0], tuple) and env[s.iter.id][0][0] in ("list", "iter")):
-                bad(s, "for loop other than `for <name> in <list or iterator variable>`")
-            it, target, elem = s.iter.id, s.target.id, env[s.iter.id][0][1].find().t
+            if not isinstance(s.target, ast.Name):
+                bad(s, "for loop other than `for <name> in <list>`")
+            if (isinstance(s.iter, ast.Name) and s.iter.id in env and isinstance(env[s.iter.id][0], tuple)
+                    and env[s.iter.id][0][0] in ("list", "iter")):
+                it, (itty, itterm) = s.iter.id, env[s.iter.id]
+            else:                                        # `for x in <expression>`: the list is computed once, before the loop
+                itty, itterm = self.ex(s.iter, env)
+                if not is_list(itty):
+                    bad(s, "for loop over %s" % show(itty))
+                iterpre = self.take_pre()
+            target, elem = s.target.id, itty[1].find().t
             if elem is None or it in assigned or target in env or target in assigned_names(s.body):
                 bad(s, "for loop over a list of unknown element type, or that rebinds its list or its loop variable")
         later = loaded_names(rest + after)
@@ -1087,7 +1343,9 @@ class Fn:
             if x in env and x != it and x not in inv + carried and env[x][0] not in ("none", "cls"):
                 bad(s, "loop reads %s, a %s" % (x, show(env[x][0])))
         live = [x for x in carried if x in later]
-        if target in later:
+        inside = {id(n) for st in s.body for n in ast.walk(st)}      # (an enclosing loop puts this very loop into `after`)
+        if any(isinstance(n, ast.Name) and n.id == target and isinstance(n.ctx, ast.Load) and id(n) not in inside
+               for st in rest + after for n in ast.walk(st)):
             bad(s, "loop variable %s read after the loop" % target)
         state = list(STATE[self.recv]) if "self" in loads else []
         ienv = {key: val for key, val in env.items() if key.startswith("@") or val[0] in ("none", "cls")}
@@ -1102,7 +1360,8 @@ class Fn:
                 if x not in e:
                     bad(s, "%s may be unbound when the loop stops" % x)
                 unify(s, e[x][0], env[x][0], "loop variable %s" % x)
-            return ("ret", "@loop", tuple_term([e[x][1] for x in live]), False)
+            t = tuple_term([e[x][1] for x in live])
+            return ("ret", "@loop", "(inr %s)" % t if has_ret else t, False)
 
         def again(e):                                    # next iteration in environment e
             for x in carried:
@@ -1111,7 +1370,7 @@ class Fn:
                 unify(s, e[x][0], env[x][0], "loop variable %s" % x)
             args = ["fuel'"] * iswhile + state + [ienv[x][1] for x in inv] + ["xs'"] * (not iswhile) + [e[x][1] for x in carried]
             return ("ret", "@loop", "(%s)" % " ".join([name] + args), True)
-        ienv["@break"], ienv["@continue"] = result, again
+        ienv["@break"], ienv["@continue"], ienv["@lret"] = result, again, has_ret
         ahead = [s] + rest + after
         if iswhile:
             c = self.bool_(s.test, ienv)
@@ -1122,7 +1381,7 @@ class Fn:
             ir = (result(ienv), self.block(s.body, benv, again, ahead))
             outcome = any(self.effects(x) for x in ir)
             ps = ([(x, "int") for x in state] + params[:len(inv)], params[len(inv):])
-        L = Loop(name, s, iswhile, ps, tuple_type([env[x][0] for x in live]), ir, outcome, elem, None if iswhile else tcn)
+        L = Loop(name, s, iswhile, ps, tuple_type([env[x][0] for x in live]), ir, outcome, elem, None if iswhile else tcn, has_ret)
         if id(s) in self.loopmemo:
             if repr(self.loopmemo[id(s)].ir) != repr(ir):
                 bad(s, "loop reached in two different contexts")
@@ -1130,7 +1389,7 @@ class Fn:
             self.loopmemo[id(s)] = L
             self.loops.append(L)
         # the call
-        args = state + [env[x][1] for x in inv] + ([env[it][1]] if it else []) + [env[x][1] for x in carried]
+        args = state + [env[x][1] for x in inv] + ([itterm] if not iswhile else []) + [env[x][1] for x in carried]
         if iswhile:
             spec = FUEL.get((self.recv, self.name, self.loopno[id(s)]))
             if spec is None:
@@ -1151,32 +1410,39 @@ class Fn:
             else:
                 env2[it] = (env[it][0], "[]")                # exhausted
         pat = pattern([env2[x][1] for x in live])
-        return ("bind" if outcome else "let", pat, "(%s)" % " ".join([name] + args), self.block(rest, env2, k, after))
+        if has_ret:         # inl r: the body returned r; inr <variables>: the loop ended
+            h = self.fresh()
+            return self.wrap(iterpre, ("bind" if outcome else "let", h, "(%s)" % " ".join([name] + args),
+                                       ("lmatch", h, self.fresh(), pat, self.block(rest, env2, k, after))))
+        return self.wrap(iterpre, ("bind" if outcome else "let", pat, "(%s)" % " ".join([name] + args), self.block(rest, env2, k, after)))
 
     # ---- result type and text
     @staticmethod
     def children(ir):
         k = ir[0]
         return ([ir[3]] if k in ("let", "bind") else [ir[2], ir[3]] if k in ("if", "match", "join") else [ir[4], ir[5]] if k == "next"
-                else [a[2] for a in ir[2]] if k == "omatch" else [])
+                else [a[2] for a in ir[2]] if k == "omatch" else [ir[4]] if k == "lmatch" else [])
 
     def leaves(self, ir):
         return [ir] if ir[0] in ("ret", "raise") else [x for sub in self.children(ir) for x in self.leaves(sub)]
 
     def effects(self, ir):
         """can evaluating this IR raise (does it have to live in `outcome`)?"""
-        return ir[0] in ("raise", "bind", "next") or (ir[0] == "ret" and ir[1] != "@loop" and ir[3]) or any(
+        return ir[0] in ("raise", "bind", "next") or (ir[0] == "ret" and ir[1] != "@loop" and ir[3]) or (ir[0] == "lret" and ir[3]) or any(
             self.effects(x) for x in self.children(ir))
 
     def finish(self):
         rets = [l for l in self.leaves(self.ir) if l[0] == "ret"]
-        kinds = [l[1] for l in rets if l[1] != "none"]
+        kinds = [l[1] for l in rets if l[1] != "none"] + self.lrets
         if not kinds:
             bad(self.f, "no return value")
         for kd in kinds[1:]:
             unify(self.f, kd, kinds[0], "return values")
         self.kind = kinds[0]
         self.optional = any(l[1] == "none" for l in rets)
+        if self.optional and (self.lrets or self.mutating):
+            bad(self.f, "None on some paths of a function that returns from inside a loop or assigns the object state")
+        self.retkind = self.kind
         self.outcome = self.kind in ("obj", "net", "self") or self.effects(self.ir)
         base = "(option %s)" % coqty(self.kind, self.f) if self.optional else coqty(self.kind, self.f)
         self.type = "outcome " + base if self.outcome else unparen(base)
@@ -1192,12 +1458,14 @@ class Fn:
                 return "omap Some %s" % term if optional else term
             t = "None" if kind == "none" else ("(Some %s)" % term if optional else term)
             return "Ok %s" % t if oc else t
+        if k == "lret":
+            return ("omap inl %s" % ir[2]) if ir[3] else ("Ok (inl %s)" % ir[2] if oc else "(inl %s)" % ir[2])
         if k == "jret":
             return "Ok %s" % ir[1] if oc else ir[1]
         if k == "raise":
             return "Raise %s" % ir[1]
         i2 = ind + "  "
-        sub = lambda x, o=oc: self.render(x, i2, o, optional) if x[0] in ("ret", "raise", "jret") else "(" + self.render(x, i2 + " ", o, optional) + ")"
+        sub = lambda x, o=oc: self.render(x, i2, o, optional) if x[0] in ("ret", "raise", "jret", "lret") else "(" + self.render(x, i2 + " ", o, optional) + ")"
         if k == "let":
             return "let %s := %s in\n%s%s" % (ir[1].replace("(", "'(", 1), ir[2], ind, self.render(ir[3], ind, oc, optional))
         if k == "bind":
@@ -1217,6 +1485,9 @@ class Fn:
         if k == "next":
             return "match %s with\n%s| [] =>\n%s%s\n%s| %s :: %s =>\n%s%s\n%send" % (
                 ir[1], ind, i2, sub(ir[4]), ind, ir[2], ir[3], i2, sub(ir[5]), ind)
+        if k == "lmatch":
+            return "match %s with\n%s| inl %s => %s\n%s| inr %s =>\n%s%s\n%send" % (
+                ir[1], ind, ir[2], ("Ok %s" if oc else "%s") % ir[2], ind, ir[3], i2, sub(ir[4]), ind)
         if k == "omatch":
             return "match %s with\n%s%send" % (ir[1], "".join("%s| %s =>\n%s%s\n" % (ind, " ".join([kd] + ns), i2, sub(a)) for kd, ns, a in ir[2]), ind)
         raise AssertionError(k)
@@ -1225,7 +1496,7 @@ class Fn:
         """one branch of a join; `let x := e in x` is written e"""
         if ir[0] == "let" and ir[3] == ("jret", ir[1]) and not oc:
             return ir[2]
-        return self.render(ir, ind, oc) if ir[0] in ("ret", "raise", "jret") else "(" + self.render(ir, ind + " ", oc) + ")"
+        return self.render(ir, ind, oc) if ir[0] in ("ret", "raise", "jret", "lret") else "(" + self.render(ir, ind + " ", oc) + ")"
 
     def what(self):
         if self.recv is None:
@@ -1235,29 +1506,60 @@ class Fn:
 
     def text(self):
         first = min([self.f.lineno] + [d.lineno for d in self.f.decorator_list])
-        ps = ("(%s : Z)" % " ".join(STATE[self.recv]) if self.recv else "") + "".join(
-            " (%s : %s)" % (cn, unparen(coqty(ty, self.f))) for cn, ty in self.params)
+        ps = ("(%s : Z)" % " ".join(STATE[self.recv]) if STATE[self.recv] else "") + "".join(
+            " (%s : %s)" % (cn, unparen(coqty(ty, self.f))) for cn, ty in self.statevars + self.params)
         return "".join(L.text(self) + "\n" for L in self.loops) + "(* %s: %s, lines %d-%d *)\nDefinition %s %s : %s :=\n  %s.\n" % (
-            self.mod.fn, self.what(), first, self.f.end_lineno, mangle(self.recv, self.name), ps.strip(), self.type,
+            self.mod.fn, self.what(), first, self.f.end_lineno, self.cname, ps.strip(), self.type,
             self.render(self.ir, "  ", self.outcome, self.optional))
 
 
 class Translator:
-    def __init__(self):
-        self.mod = Module(IPFILE)
+    """all translated definitions of one source file (`out` None: netaddr/ip/__init__.py with WHITELIST + FUNCS)"""
+
+    def __init__(self, fn=IPFILE, out=None, prefix="", specs=None, parent=None):
+        self.fn, self.out, self.prefix, self.parent = fn, out, prefix, parent
+        self.specs = WHITELIST + FUNCS if specs is None else specs
         self.done, self.order, self.failed, self.active = {}, [], {}, []
+        CURFILE.append(fn)
+        try:
+            self.mod = Module(fn)
+        finally:
+            CURFILE.pop()
+
+    def mangle(self, recv, name):
+        return mangle(recv, name, self.prefix)
+
+    def owner_of(self, name):
+        """the translator that holds the module-level function `name` as seen from this file: this one, or (for a name imported
+        from netaddr.ip) the translator of netaddr/ip/__init__.py; None if nobody lists it"""
+        if any(k[0] is None and k[1] == name for k in self.specs) and not self.mod.imports.get(name):
+            return self
+        if self.parent is not None and self.mod.imports.get(name) == "netaddr.ip." + name and self.parent.owner_of(name):
+            return self.parent
+        return None
+
+    def modof(self, cls):
+        """the parsed module that defines class `cls` as seen from this file (this one, or netaddr/ip/__init__.py for an import)"""
+        if cls not in self.mod.classes and self.parent is not None and self.mod.imports.get(cls) == "netaddr.ip." + cls:
+            return self.parent.mod
+        return self.mod
 
     def get(self, recv, name, node=None):
         key = (recv, name)
+        if recv is None and self.owner_of(name) not in (None, self):
+            return self.owner_of(name).get(recv, name, node)
+        if recv is not None and self.modof(recv) is not self.mod:
+            return self.parent.get(recv, name, node)
         if key in self.failed:
-            bad(node, "depends on untranslatable %s" % mangle(*key))
+            bad(node, "depends on untranslatable %s" % self.mangle(*key))
         if key in self.active:
-            bad(node, "recursive use of %s" % mangle(*key))
+            bad(node, "recursive use of %s" % self.mangle(*key))
         if key not in self.done:
-            spec = [w for w in WHITELIST + FUNCS if w[:2] == key]
+            spec = [w for w in self.specs if w[:2] == key]
             if not spec:
-                bad(node, "use of %s, which is not in the translator's whitelist" % mangle(*key))
+                bad(node, "use of %s, which is not in the translator's whitelist" % self.mangle(*key))
             self.active.append(key)
+            CURFILE.append(self.fn)
             try:
                 d = Fn(self, recv, name, spec[0][2])
                 d.body_text = d.text()          # also resolves every list type: fail here, scoped to this definition
@@ -1265,13 +1567,23 @@ class Translator:
                 self.failed[key] = str(e)
                 raise
             except Exception as e:      # a translator bug on an unforeseen AST shape: fail closed, scoped to this method
-                self.failed[key] = "%s:?: internal translator error %s: %s" % (IPFILE, type(e).__name__, e)
+                self.failed[key] = "%s:?: internal translator error %s: %s" % (self.fn, type(e).__name__, e)
                 raise Untranslatable(self.failed[key])
             finally:
                 self.active.pop()
+                CURFILE.pop()
             self.done[key] = d
             self.order.append(key)
         return self.done[key]
+
+    def run(self):
+        for recv, name, _ in self.specs:
+            assert (recv, name) not in SKIP or self.out
+            try:
+                self.get(recv, name)
+            except Untranslatable:
+                pass
+        return self
 
 
 def constants():
@@ -1303,39 +1615,47 @@ def constants():
     return out
 
 
+HEAD = ("(* GENERATED on every run by harness/gen/pysrc.py from the text of %s%s\n"
+        "   of the working tree; do not edit.  Proofs/GenOk_Src*.v prove each definition equal to the hand-written model. *)\n"
+        "From Coq Require Import ZArith List Bool.\nFrom NV Require Import Base.PyVal Model.Ip Model.SrcPrelude%s.\n"
+        "Import ListNotations.\nOpen Scope Z_scope.\n\n")
+
+
+def failures(tr, failed, mine):
+    """a function outside the subset keeps its name, with a one-constructor type NAMED after the reason: every lemma that
+    mentions it stops compiling and the Coq error (hence the replay file) spells out file, line and reason"""
+    fails = ""
+    for i, (k, v) in enumerate(failed):
+        if not mine(k):
+            continue
+        ty = "untranslatable_%d__%s" % (i + 1, re.sub(r"[^A-Za-z0-9]+", "_", v).strip("_"))
+        fails += ("(* UNTRANSLATABLE %s: %s *)\nInductive %s : Set := Untranslatable_%d.\nDefinition %s : %s := Untranslatable_%d.\n\n"
+                  % (tr.mangle(*k).replace("src_", "", 1), re.sub(r"[^ -~]", "?", v).replace("*)", "* )"), ty, i + 1, tr.mangle(*k), ty, i + 1))
+    return fails
+
+
 def generate():
-    tr = Translator()
-    for recv, name, _ in WHITELIST + FUNCS:
-        assert (recv, name) not in SKIP
-        try:
-            tr.get(recv, name)
-        except Untranslatable:
-            pass
-    names = [mangle(*k) for k in tr.order] + [L.name for k in tr.order for L in tr.done[k].loops]
+    tr = Translator().run()
+    units = [Translator(fn, out, prefix, specs, tr).run() for fn, out, prefix, _, specs in UNITS]
+    names = [x for t in [tr] + units for k in t.order for x in [t.mangle(*k)] + [L.name for L in t.done[k].loops]]
     assert len(set(names)) == len(names), "name collision"
     failed = sorted(tr.failed.items(), key=lambda kv: (kv[0][0] or "", kv[0][1]))
     out = {}
-    for fn in FILES:
+    for fn in FILES[:len(FILES) - len(UNITS)]:
         mine = [k for k in tr.order if tr.done[k].file == fn]
         uses = sorted({tr.done[d].file for k in mine for d in tr.done[k].deps} - {fn} | ({FILES[0]} if fn != FILES[0] else set()),
                       key=FILES.index)
-        head = ("(* GENERATED on every run by harness/gen/pysrc.py from the text of %s%s\n"
-                "   of the working tree; do not edit.  Proofs/GenOk_Src*.v prove each definition equal to the hand-written model. *)\n"
-                "From Coq Require Import ZArith List Bool.\nFrom NV Require Import Base.PyVal Model.Ip Model.SrcPrelude%s.\n"
-                "Import ListNotations.\nOpen Scope Z_scope.\n\n"
-                % (IPFILE, " and netaddr/strategy/ipv4.py, ipv6.py" if fn == FILES[0] else "",
-                   "".join(" Gen." + u[:-2] for u in uses)))
-        # a function outside the subset keeps its name, with a one-constructor type NAMED after the reason: every lemma that
-        # mentions it stops compiling and the Coq error (hence the replay file) spells out file, line and reason
-        fails = ""
-        for i, (k, v) in enumerate(failed):
-            if (FILE_OF.get(k[1], FILES[0]) if k[0] is None else FILES[0]) != fn:
-                continue
-            ty = "untranslatable_%d__%s" % (i + 1, re.sub(r"[^A-Za-z0-9]+", "_", v).strip("_"))
-            fails += ("(* UNTRANSLATABLE %s: %s *)\nInductive %s : Set := Untranslatable_%d.\nDefinition %s : %s := Untranslatable_%d.\n\n"
-                      % (mangle(*k).replace("src_", "", 1), re.sub(r"[^ -~]", "?", v).replace("*)", "* )"), ty, i + 1, mangle(*k), ty, i + 1))
+        head = HEAD % (IPFILE, " and netaddr/strategy/ipv4.py, ipv6.py" if fn == FILES[0] else "", "".join(" Gen." + u[:-2] for u in uses))
+        fails = failures(tr, failed, lambda k: (FILE_OF.get(k[1], FILES[0]) if k[0] is None else FILES[0]) == fn)
         text = head + ("\n".join(constants()) + "\n" if fn == FILES[0] else "") + "\n".join(tr.done[k].body_text for k in mine) + (
             "\n" + fails if fails else "")
         text.encode("ascii")
         out[fn] = text
+    for t, (fn, ofn, _, req, _) in zip(units, UNITS):
+        uses = sorted({d.file for k in t.order for d in t.done[k].depfns} - {ofn} | {FILES[0]}, key=FILES.index)
+        fails = failures(t, sorted(t.failed.items(), key=lambda kv: (kv[0][0] or "", kv[0][1])), lambda k: True)
+        text = HEAD % (fn, "", req + "".join(" Gen." + u[:-2] for u in uses)) + "\n".join(t.done[k].body_text for k in t.order) + (
+            "\n" + fails if fails else "")
+        text.encode("ascii")
+        out[ofn] = text
     return out
